@@ -26,6 +26,27 @@ CHECKS["C02"] = dict(
     technique="TLA+ model checking (TLC) + behaviour replay + TLC trace validation",
     design="6/C02")
 
+CHECKS["C01"] = dict(
+    level="model_checking",
+    text="TLC checks the sector walk model (visit_file_body_piecewise through Volume::Access, FileView and the file) against the "
+         "requirement ROutcome for every region kind / start / length class, and the rendering operators for consistency; the cases "
+         "(plus Catalog.tla layouts with 10-bit starts and >64KiB lengths, seeded 31/62-file catalogues on Acorn, Watford and Opus discs, "
+         "and RenderGen bodies) are replayed through type --binary, extract-files, type, list and dump on stamped images and TLC "
+         "(TraceDisc.tla) judges byte origin and renderings.",
+    note="Stamped sectors (shake128) identify where delivered bytes came from; dump's offset column is not judged; arbitrary body bytes "
+         "are represented by pseudo-random stamps plus the RenderGen alphabet.",
+    technique="TLA+ model checking (TLC) + behaviour replay + TLC trace validation",
+    design="6/C01")
+CHECKS["C17"] = dict(
+    level="model_checking",
+    text="TLC checks that the modelled bound checks (volume, surface view, file) never let a walk deliver a sector outside the addressed "
+         "region and report an error when the extent passes it, for entries ending before/at/after each boundary; every case is scaled to "
+         "real images (whole surface, both .dsd sides, MMB slot with neighbours, truncated file, Opus volume mid/last, file longer than the "
+         "surface) and TraceDisc.tla judges the stamps of every delivered chunk and the exit status/diagnostic.",
+    note="Foreign bytes are recognised by per-surface stamps; chunks shorter than a sector are first compared with the expected sector.",
+    technique="TLA+ model checking (TLC) + behaviour replay + TLC trace validation",
+    design="6/C17")
+
 PENDING_REASON = "check not built yet in this session (work in progress; design in DESIGN.md section 6)"
 
 
